@@ -3,12 +3,12 @@
 package c09
 
 import (
+	"sort"
 	"bytes"
 	"encoding/json"
 	"fmt"
 	"reflect"
 	"runtime"
-	"sort"
 	"strings"
 	"sync"
 	"sync/atomic"
@@ -104,9 +104,23 @@ func doOp(t *template.Template, o gop, data []map[string]interface{}) (r opResul
 				r.out = b.String()
 			}
 		case "templates":
-			n := len(t.Templates())
-			if n == 0 {
+			// the caller owns the slice it is given: it reads it, sorts the names and clears it
+			ts := t.Templates()
+			if len(ts) == 0 {
 				err = fmt.Errorf("no templates")
+			}
+			var names []string
+			for i, m := range ts {
+				if m == nil {
+					err = fmt.Errorf("Templates() returned a nil entry at index %d of %d", i, len(ts))
+					break
+				}
+				names = append(names, m.Name())
+			}
+			sort.Strings(names)
+			r.out = strings.Join(names, ",")
+			for i := range ts {
+				ts[i] = nil
 			}
 		case "defined":
 			_ = t.DefinedTemplates()
@@ -358,7 +372,18 @@ func run(c *core.Ctx) {
 			c.Sample(map[string]interface{}{"case": k, "hook_event_order": il})
 		}
 	}
-	var keys []string
-	_ = keys
-	sort.Strings(keys)
+	// errors that point into the tree of a callee analysed successfully later (nesting depth):
+	// one goroutine prints the error of "caller" while another executes "deep" for the first time
+	deep := `{{define "deep"}}` + strings.Repeat("{{if $.C0}}", 9997) + "x{{$.S0}}" + strings.Repeat("{{end}}", 9997) + `{{end}}` +
+		`{{define "caller"}}<b>{{if $.C0}}{{if $.C0}}{{if $.C0}}{{if $.C0}}{{template "deep" .}}{{end}}{{end}}{{end}}{{end}}</b>{{end}}`
+	caller, callee := gop{Kind: "exect", Name: "caller"}, gop{Kind: "exect", Name: "deep"}
+	for i := 0; i < c.N(24, 240)/c.NShards; i++ {
+		k := kase{Texts: []string{deep}, Data: genCase(r).Data, HookSeed: uint64(r.Intn(1 << 30)), Repeat: 1,
+			Threads: [][]gop{{caller, caller, caller, caller}, {caller, callee}, {caller, caller, caller}}}
+		c.Journal(util.JSON(map[string]string{"scenario": "error that points into the live tree of a callee"}))
+		c.Count("runs_with_an_error_pointing_into_a_callee_tree", 1)
+		if _, bad := runOnce(c, k); bad != "" {
+			c.Violation(k, "%s", bad)
+		}
+	}
 }
